@@ -176,7 +176,21 @@ func (s *Sim) queryRels(fi *FilterInst, qr []RelSpec, typed bool) ([]relPair, []
 }
 
 func (s *Sim) opOpenQuery(op *Op) {
-	if len(s.filters) == 0 || len(s.queries) >= 80 {
+	if op.N > 1 {
+		// burst: open queries until the capacity is reached, then one more
+		n := op.N
+		one := *op
+		one.N = 0
+		for i := 0; i < n && s.lockDepth <= 64 && !s.fatal; i++ {
+			before := s.lockDepth
+			s.opOpenQuery(&one)
+			if s.lockDepth == before {
+				break // skipped or the 65th was rejected
+			}
+		}
+		return
+	}
+	if len(s.filters) == 0 || len(s.queries) >= 400 {
 		s.skip(op)
 		return
 	}
